@@ -659,7 +659,7 @@ pub fn check(property: &str, tier: &str, base_seed: u64, workers: usize, runs_ov
     let mut value_modules = 0usize;
     let mut value_wall = 0.0f64;
     if property == "C06" && runs_override.map(|r| r >= 100).unwrap_or(true) {
-        let vstage = Stage { name: "values", focus: Focus::Values, faults: false, runs: if tier == "thorough" { 2000 } else { 200 }, stream: 43 };
+        let vstage = Stage { name: "values", focus: Focus::Values, faults: false, runs: if tier == "thorough" { 2000 } else { 260 }, stream: 43 };
         let n = vstage.runs;
         match value_stage(base_seed, &vstage, workers) {
             Ok((found, n_mod, counts, wall)) => {
